@@ -34,6 +34,34 @@ type Controller struct {
 	onlyInTx   bool // count only statements issued inside an explicit transaction (and its commit)
 	failCommit bool // fail the next commit (whatever its index)
 	delay      func(kind, query string)
+	arms       int // number of times the controller was armed: rotates the kind of the injected error
+}
+
+// faultKinds: what the injected error looks like to the caller. Besides the opaque ErrFault these
+// are real go-sqlite3 error values as SQLite produces them for an I/O error, a full disk, a busy
+// database and a statement aborted by a constraint other than a duplicate key (RAISE(ABORT) in a
+// trigger, NOT NULL, CHECK): none of them may be mistaken for success or for "row already there".
+var faultKinds = []error{
+	ErrFault,
+	sqlite3.Error{Code: sqlite3.ErrIoErr, ExtendedCode: sqlite3.ErrIoErrWrite},
+	sqlite3.Error{Code: sqlite3.ErrFull},
+	sqlite3.Error{Code: sqlite3.ErrConstraint, ExtendedCode: sqlite3.ErrConstraintTrigger},
+	sqlite3.Error{Code: sqlite3.ErrBusy},
+	sqlite3.Error{Code: sqlite3.ErrConstraint, ExtendedCode: sqlite3.ErrConstraintNotNull},
+}
+
+// KindsInjected counts the injected errors per kind (evidence)
+var KindsInjected [6]atomic.Int64
+
+func (c *Controller) fault(kind string) error {
+	c.mu.Lock()
+	k := c.arms % len(faultKinds)
+	c.mu.Unlock()
+	if kind != "exec" && (k == 3 || k == 5) {
+		k = 1 // a read or a COMMIT does not fail with a constraint error
+	}
+	KindsInjected[k].Add(1)
+	return faultKinds[k]
 }
 
 var controllers sync.Map // name -> *Controller
@@ -42,6 +70,7 @@ var controllers sync.Map // name -> *Controller
 func (c *Controller) Arm(failAt int, keepLog bool) {
 	c.mu.Lock()
 	c.armed, c.count, c.failAt, c.fired, c.log, c.keepLog = true, 0, failAt, false, nil, keepLog
+	c.arms++
 	c.mu.Unlock()
 }
 
@@ -49,6 +78,7 @@ func (c *Controller) Arm(failAt int, keepLog bool) {
 func (c *Controller) ArmCommit() {
 	c.mu.Lock()
 	c.armed, c.count, c.failAt, c.fired, c.log, c.keepLog, c.failCommit = true, 0, 0, false, nil, false, true
+	c.arms++
 	c.mu.Unlock()
 }
 
@@ -162,13 +192,13 @@ func (c *conn) BeginTx(ctx context.Context, opts driver.TxOptions) (driver.Tx, e
 }
 func (c *conn) ExecContext(ctx context.Context, q string, args []driver.NamedValue) (driver.Result, error) {
 	if c.c.step("exec", q, c.inTx) {
-		return nil, ErrFault
+		return nil, c.c.fault("exec")
 	}
 	return c.inner.ExecContext(ctx, q, args)
 }
 func (c *conn) QueryContext(ctx context.Context, q string, args []driver.NamedValue) (driver.Rows, error) {
 	if c.c.step("query", q, c.inTx) {
-		return nil, ErrFault
+		return nil, c.c.fault("query")
 	}
 	return c.inner.QueryContext(ctx, q, args)
 }
@@ -184,25 +214,25 @@ func (s *stmt) Close() error  { return s.inner.Close() }
 func (s *stmt) NumInput() int { return s.inner.NumInput() }
 func (s *stmt) Exec(args []driver.Value) (driver.Result, error) {
 	if s.cn.c.step("exec", s.q, s.cn.inTx) {
-		return nil, ErrFault
+		return nil, s.cn.c.fault("exec")
 	}
 	return s.inner.Exec(args)
 }
 func (s *stmt) Query(args []driver.Value) (driver.Rows, error) {
 	if s.cn.c.step("query", s.q, s.cn.inTx) {
-		return nil, ErrFault
+		return nil, s.cn.c.fault("query")
 	}
 	return s.inner.Query(args)
 }
 func (s *stmt) ExecContext(ctx context.Context, args []driver.NamedValue) (driver.Result, error) {
 	if s.cn.c.step("exec", s.q, s.cn.inTx) {
-		return nil, ErrFault
+		return nil, s.cn.c.fault("exec")
 	}
 	return s.inner.ExecContext(ctx, args)
 }
 func (s *stmt) QueryContext(ctx context.Context, args []driver.NamedValue) (driver.Rows, error) {
 	if s.cn.c.step("query", s.q, s.cn.inTx) {
-		return nil, ErrFault
+		return nil, s.cn.c.fault("query")
 	}
 	return s.inner.QueryContext(ctx, args)
 }
@@ -217,7 +247,7 @@ func (t *tx) Commit() error {
 	t.cn.inTx = false
 	if fail {
 		_ = t.inner.Rollback()
-		return ErrFault
+		return t.cn.c.fault("commit")
 	}
 	return t.inner.Commit()
 }
